@@ -15,6 +15,7 @@ package command
 //@   trusted sync.Map.LoadOrStore is atomic: take succeeds iff no other request holds the key
 //@ func (*command.Referencer).release
 //@   requires held[refKey(ref, key)]      // C07 C10 C11: a request releases only a reservation it holds (releasing another request's would let a third one in)
+//@   requires forall c0 ref :: ackable[c0] ==> acked[c0]      // C07 C10 C11: ... and only when no log enqueued by this request still awaits persistence
 //@   update held = remove(held, refKey(ref, key))
 //@   modifies ghost held
 //@   trusted sync.Map.Delete
@@ -47,7 +48,7 @@ package command
 //@   inline
 //@   update curLog = ite(err == nil, ret0, curLog)
 // a request starts with nothing reserved and no lock
-//@ def idle() = !lockTaken && !curLogFresh && (forall k0 string :: !taken[k0])
+//@ def idle() = !lockTaken && !curLogFresh && (forall k0 string :: !taken[k0]) && (forall c1 ref :: !ackable[c1])
 // type invariant of the commander: the head of the chain has an id
 //@ def headOK(c) = c.lastLog != nil ==> c.lastLog.ID != nil
 
@@ -65,7 +66,7 @@ package command
 //@ func (*command.Commander).exec
 //@   inline
 //@   requires commander != nil && commander.lastTXID != nil
-//@   requires (lockTaken ==> lockHeld) && !curLogFresh && (forall k string :: taken[k] ==> held[k]) && headOK(commander)
+//@   requires (lockTaken ==> lockHeld) && !curLogFresh && (forall k string :: taken[k] ==> held[k]) && headOK(commander) && (forall c1 ref :: ackable[c1] ==> acked[c1])
 //@   requires implements(logComputer, LogComputer)
 //@   ensures err == nil && !parameters.DryRun ==> persisted[ret0]                                           // C06: acknowledged means persisted
 //@   ensures err != nil ==> enqueued == old(enqueued)                                                        // C06: rejected means no trace
